@@ -59,10 +59,10 @@ theorem spelling_invariant_nested_dotted (src : SLib) (target : Path) :
 /-- `model B parameter Real p = 1; Real x; end B;  model M parameter Real p = 7; B b(x(start = p), p = 2); end M;` -/
 def exSrc : SLib :=
   [.mk "B" "model" none [] []
-     [⟨"p", ["Real"], ["parameter"], [], [], some (.num 1)⟩, ⟨"x", ["Real"], [], [], [], none⟩] [],
+     [⟨"p", ["Real"], ["parameter"], [], [], some (.num 1)⟩, ⟨"x", ["Real"], [], [], [], none⟩] [] [],
    .mk "M" "model" none [] []
      [⟨"p", ["Real"], ["parameter"], [], [], some (.num 7)⟩,
-      ⟨"b", ["B"], [], [], [.mk ["x"] [.mk ["start"] [] (some (.ref [("p", [])]))] none, .mk ["p"] [] (some (.num 2))], none⟩] []]
+      ⟨"b", ["B"], [], [], [.mk ["x"] [.mk ["start"] [] (some (.ref [("p", [])]))] none, .mk ["p"] [] (some (.num 2))], none⟩] [] []]
 
 example : (flattenSrc (respellList toNestedList exSrc) ["M"]).toOption.isSome = true ∧
     (flattenSrc (respellList (toDottedList []) exSrc) ["M"]).toOption =
@@ -78,15 +78,15 @@ theorem flat_attributes {fuel : Nat} {lib : Lib} {t : Path} {m : FlatModel} (h :
     ∃ r : List Var × List IEq, instTop fuel lib t = .ok r ∧ m.vars = r.1.map (finVar (m.vars.map (·.path))) ∧
       ∀ v ∈ r.1, ∀ a e, (a, e) ∈ (finVar (m.vars.map (·.path)) v).attrs ↔
         a ∈ attrNames ∧ ∃ w, lookupBind v.binds [a] = some w ∧ e = rename (m.vars.map (·.path)) w.scope w.value := by
-  obtain ⟨r, hr, rfl, htop⟩ := flattenF_ok h
-  have hnames : (assemble r).vars.map (·.path) = r.1.map (·.path) := by
+  obtain ⟨r, ri, hr, hri, rfl, htop, htopi⟩ := flattenF_ok h
+  have hnames : (assemble r ri.2).vars.map (·.path) = r.1.map (·.path) := by
     simp [assemble, finVar, List.map_map, Function.comp_def]
   refine ⟨r, htop, by rw [hnames]; rfl, ?_⟩
   intro v _ a e
   exact finVar_attr
 
 example : flattenF 6 exLib ["M"] = .ok exFlat ∧
-    (exFlat.vars.map fun v => (v.path, v.attrs, v.value))[3]? = some (["b"], [("start", .num 3)], none) ∧
+    (exFlat.vars.map fun v => (v.path, v.attrs, v.value))[4]? = some (["b"], [("start", .num 3)], none) ∧
     (exFlat.vars.map fun v => (v.path, v.attrs, v.value))[0]? = some (["lb", "k"], [], some (.num 5)) :=
   ⟨exFlat_ok, by decide +kernel, by decide +kernel⟩
 
